@@ -3,6 +3,9 @@
 
 from jax2onnx._compat.jax import JaxprEqn
 import jax
+import numpy as np
+
+from jax2onnx.ir_utils import ir_dtype_to_numpy
 
 from jax2onnx.converter.typing_support import LoweringContextProtocol
 from jax2onnx.plugins._post_check_onnx_graph import expect_graph as EG
@@ -27,10 +30,30 @@ from jax2onnx.plugins.plugin_system import PrimitiveLeafPlugin, register_primiti
             "callable": lambda x: jax.lax.round(x),
             "input_shapes": [(3,)],
             "post_check_onnx_graph": EG(
-                ["Round:3"],
+                ["Abs:3 -> Add:3 -> Floor:3 -> Mul:3"],
                 no_unused_inputs=True,
             ),
-        }
+        },
+        {
+            "testcase": "round_half_to_even",
+            "callable": lambda x: jax.lax.round(
+                x, jax.lax.RoundingMethod.TO_NEAREST_EVEN
+            ),
+            "input_values": [
+                np.asarray([-2.5, -1.5, -0.5, 0.5, 1.5, 2.5, 0.3], dtype=np.float32)
+            ],
+            "post_check_onnx_graph": EG(
+                ["Round:7"],
+                no_unused_inputs=True,
+            ),
+        },
+        {
+            "testcase": "round_half_away_from_zero",
+            "callable": lambda x: jax.lax.round(x),
+            "input_values": [
+                np.asarray([-2.5, -1.5, -0.5, 0.5, 1.5, 2.5, 0.3], dtype=np.float32)
+            ],
+        },
     ],
 )
 class RoundPlugin(PrimitiveLeafPlugin):
@@ -46,7 +69,39 @@ class RoundPlugin(PrimitiveLeafPlugin):
         if getattr(out_spec, "producer", None) is not None:
             desired_name = ctx.fresh_name("round_out")
 
-        result = ctx.builder.Round(x_val, _outputs=[desired_name])
+        method = eqn.params.get("rounding_method", None)
+        method_name = str(getattr(method, "name", method)).upper()
+        if method_name.endswith("TO_NEAREST_EVEN") or method_name == "1":
+            # ONNX Round rounds halves to the nearest even integer.
+            result = ctx.builder.Round(x_val, _outputs=[desired_name])
+        else:
+            # lax.round defaults to AWAY_FROM_ZERO: sign(x) * floor(|x| + 0.5).
+            dtype_enum = getattr(getattr(x_val, "type", None), "dtype", None)
+            np_dtype = ir_dtype_to_numpy(dtype_enum, default=None)
+            if np_dtype is None:
+                np_dtype = np.dtype(getattr(x_var.aval, "dtype", np.float32))
+            half = ctx.bind_const_for_var(object(), np.asarray(0.5, dtype=np_dtype))
+
+            def _like_input(value):
+                value.type = x_val.type
+                value.shape = x_val.shape
+                return value
+
+            magnitude = _like_input(
+                ctx.builder.Abs(x_val, _outputs=[ctx.fresh_name("round_abs")])
+            )
+            shifted = _like_input(
+                ctx.builder.Add(
+                    magnitude, half, _outputs=[ctx.fresh_name("round_shifted")]
+                )
+            )
+            floored = _like_input(
+                ctx.builder.Floor(shifted, _outputs=[ctx.fresh_name("round_floor")])
+            )
+            sign = _like_input(
+                ctx.builder.Sign(x_val, _outputs=[ctx.fresh_name("round_sign")])
+            )
+            result = ctx.builder.Mul(floored, sign, _outputs=[desired_name])
         result.type = out_spec.type
         result.shape = out_spec.shape
         ctx.bind_value_for_var(out_var, result)
